@@ -77,12 +77,12 @@ Definition mk_profile (bs : list ballot) (cs : list cand) : res profile :=
   if has_dup cs then err EValue
   else ok (mkProfile bs (match cs with [] => cast_cands bs | _ => cs end)).
 
-(* ---------- condense_ballots, as coded ----------
-   A dict keyed by weight-0 copies of the ballots; lookup compares rankings (the hash is on the
-   ranking only) and then calls the STORED key's __eq__, whose None scores are wild-cards. *)
+(* ---------- condense_ballots ----------
+   A dict keyed by the (ranking, scores) content of the ballots, in first-occurrence order
+   (after the repair recorded in known_findings.json: the original keyed on Ballot objects, whose
+   __eq__ treats the stored key's missing scores as a wild-card). *)
 Definition key_match (stored new : ballot) : bool :=
-  ranking_eqb (rk stored) (rk new) &&
-  (match sc stored with [] => true | _ => scores_eqb (sc stored) (sc new) end).
+  ranking_eqb (rk stored) (rk new) && scores_eqb (sc stored) (sc new).
 
 Fixpoint acc_add (acc : list ballot) (b : ballot) : list ballot :=
   match acc with
